@@ -226,7 +226,10 @@ CHECKS = [
      "text": "Proof: for one arbitrary row of an arbitrary frame and every branch of the lag selection, interpolate() keeps every cell that was "
              "present on entry, sets interpolated_<col> exactly when the cell was missing on entry and is present on exit, leaves no cell missing "
              "in a column that has a present cell, writes no other column and returns the frame it was given. _interpolate_col enters through "
-             "its frame contract (changes only missing cells), which a flow obligation discharges on the real AST. Bounded (labelled so): real "
+             "its frame contract (changes only missing cells), which a flow obligation discharges on the real AST. _HourlyData._set_data end to end for one arbitrary label "
+             "(absent / present / duplicated): zero -> NaN for electricity only, first duplicate kept, the label once on the grid, keep / flag; that the whole-day grid "
+             "CONTAINS every supplied on-the-hour label is proved from _get_contiguous_datetime (symbolic instants: index.min / max, Timestamp.replace(hour=0 / 23), "
+             "date_range between known ends). Bounded (labelled so): real "
              "HourlyBaselineData / HourlyReportingData on 4-40 day frames with NaN cells, absent rows, duplicated rows, zeros, with and without "
              "irradiance, electric and gas, several zones including DST weeks: cell-by-cell comparison with the input, whole-local-day gap-free "
              "index, flag exactness, totality.",
